@@ -4,6 +4,7 @@
    entries it executes).  Everything else leaves them alone. *)
 From Coq Require Import ZArith NArith List Bool Lia ZifyBool ZifyN.
 From RecordUpdate Require Import RecordSet.
+From PSO Require Raft.ProofsCommitBase.
 From PSO Require Import Raft.Types Raft.Node Raft.Net Raft.Obs Raft.ProofsApplyBase Raft.ProofsApply
   Raft.ProofsApplyLog Raft.ProofsCallbacks Raft.ProofsCallbacks2.
 Import ListNotations.
@@ -161,7 +162,10 @@ Definition installed (m : msg) (sv : N) (s' : S) : Prop :=
     s_ver sn <= sv /\
     hist (nd s') = s_hist sn /\ applied (nd s') = eidx (s_e1 sn) /\ enabled_ver (nd s') = s_ver sn /\
     self_ver (nd s') = sv /\
-    log (nd s') = [s_e0 sn; s_e1 sn] /\ stored (sr (nd s')) = Some (Good sn).
+    (* the log is [e0; e1], or - when the node held the snapshot's two entries - starts with them *)
+    (log (nd s') = [s_e0 sn; s_e1 sn] \/
+     exists a b r, log (nd s') = a :: b :: r /\ entry_eqb a (s_e0 sn) = true /\ entry_eqb b (s_e1 sn) = true) /\
+    stored (sr (nd s')) = Some (Good sn).
 
 Lemma oae_cases : forall e from m t c s (P : S -> Prop),
   (forall s', uview_of s' = uview_of s -> P s') ->
@@ -198,26 +202,21 @@ Proof.
     + apply HI. apply andb_prop in DL as [_ LK]. unfold load_dump_ok in LK.
       destruct (stored (sr (nd s7))) as [[sn|]|] eqn:SS; try discriminate.
       apply uview_inv in C7 as (_ & _ & _ & SV).
-      destruct (load_dump_installs e true s7 sn SS ltac:(lia) ltac:(intros _; lia)) as (H1 & H2 & H3 & H4 & H5 & H6 & _).
+      destruct (load_dump_installs e true s7 sn SS ltac:(lia) ltac:(intros _; lia)) as (H1 & H2 & H3 & H4 & H5 & _ & H7).
       cbn zeta in *.
-      set (s8 := send_next_idx from None false true (load_dump e true s7)).
-      pose proof (view_send_next_idx from None false true (load_dump e true s7)) as V8. fold s8 in V8.
-      pose proof (view_ae_commit c (Some (last_idx (log (nd s8)))) s8) as V9.
+      set (L := load_dump e true s7) in *.
+      set (s8 := send_next_idx from (Some (applied (nd L) + 1)) false true L).
+      pose proof (view_send_next_idx from (Some (applied (nd L) + 1)) false true L) as V8. fold s8 in V8.
+      pose proof (view_ae_commit c (Some (applied (nd L))) s8) as V9.
       rewrite V8 in V9.
       apply view_inv in V9 as (_ & _ & _ & X4 & X5 & X6 & X7 & _ & _ & X10 & X11 & _).
       exists tt, cc, p, sn. split; auto. split; [lia|].
-      rewrite X4, X5, X6, X7, X10, X11, H1, H2, H3, H4, (H6 eq_refl).
-      repeat split; auto.
+      fold s8. rewrite X4, X5, X6, X7, X10, X11, H1, H2, H3, H4.
+      split; [reflexivity|]. split; [reflexivity|]. split; [reflexivity|]. split; [auto|].
+      split.
+      { destruct H7 as [H7|(a & b & r & H7 & Ea & Eb & _)]; [now left|right; exists a, b, r; auto]. }
       (* the stored blob is untouched by load_dump *)
-      assert (NB : (eidx (s_e1 sn) <=? applied (nd s7)) = false) by lia.
-      clear -SS NB. unfold load_dump. rewrite SS. cbn [andb]. rewrite NB.
-      destruct (self_ver (nd s7) <? s_ver sn); auto.
-      match goal with |- stored (sr (nd (if dyn (cf e) then update_cluster ?l ?x else ?x))) = _ =>
-        assert (E : stored (sr (nd (if dyn (cf e) then update_cluster l x else x))) = stored (sr (nd x))) end.
-      { destruct (dyn (cf e)); auto.
-        match goal with |- stored (sr (nd (update_cluster ?l ?x))) = _ =>
-          now destruct (view_inv _ _ (view_update_cluster l x)) as (_ & _ & _ & _ & _ & _ & _ & _ & _ & _ & Y & _) end. }
-      rewrite E. cbn. exact SS.
+      subst L. rewrite (ProofsCommitBase.fr_load_dump (fun n => stored (sr n))) by (intros; reflexivity). exact SS.
     + apply HU. destruct done; [|now rewrite (view_uview _ _ (view_ae_commit _ _ _))].
       rewrite (view_uview _ _ (view_ae_commit _ _ _)). rewrite <- C7.
       (* a complete snapshot that is not loadable (corrupt, newer code version, not ahead of the
